@@ -11,30 +11,60 @@ use crate::Ctx;
 use std::fmt::Write as _;
 use std::process::Command;
 
+/// the document with its values (attribute values and character data, unescaped): the input
+/// of the deserializer model coq/Model/Deser.v
+#[derive(Clone)]
+enum VN {
+    Elem { name: String, empty: bool, attrs: Vec<(String, String)>, kids: Vec<VN> },
+    Text(String),
+    CData(String),
+    Misc,
+}
+fn coq_vn(v: &VN, it: &mut crate::emit::Interner) -> String {
+    match v {
+        VN::Elem { name, empty, attrs, kids } => format!(
+            "VElem {} {} [{}] [{}]",
+            it.get(name),
+            crate::emit::coq_bool(*empty),
+            attrs.iter().map(|(a, x)| format!("({}, {})", it.get(a), crate::emit::coq_str(x))).collect::<Vec<_>>().join("; "),
+            kids.iter().map(|k| coq_vn(k, it)).collect::<Vec<_>>().join("; ")
+        ),
+        VN::Text(t) => format!("VText {}", crate::emit::coq_str(t)),
+        VN::CData(t) => format!("VCData {}", crate::emit::coq_str(t)),
+        VN::Misc => "VMisc".to_string(),
+    }
+}
 /// serialise with unique value tokens; returns the text and the tokens that must be held
 type Tok = (String, Option<Vec<String>>);
-fn write_tok(n: &Node, rng: &mut Rng, ctr: &mut usize, toks: &mut Vec<Tok>, out: &mut String, pretty: bool, path: &mut Vec<String>) {
+fn write_tok(n: &Node, rng: &mut Rng, ctr: &mut usize, toks: &mut Vec<Tok>, out: &mut String, pretty: bool, path: &mut Vec<String>) -> VN {
     match n {
         Node::Text => {
             *ctr += 1;
-            let (raw, val) = match rng.below(5) {
-                0 => (format!("t{}&amp;", ctr), format!("t{}&", ctr)),
-                1 => (format!(" t{} ", ctr), format!("t{}", ctr)),
-                2 => (format!("\n  t{}&lt;x\n", ctr), format!("t{}<x", ctr)),
-                _ => (format!("t{}", ctr), format!("t{}", ctr)),
+            // (raw bytes written, unescaped content, content without surrounding whitespace)
+            let (raw, content, val) = match rng.below(5) {
+                0 => (format!("t{}&amp;", ctr), format!("t{}&", ctr), format!("t{}&", ctr)),
+                1 => (format!(" t{} ", ctr), format!(" t{} ", ctr), format!("t{}", ctr)),
+                2 => (format!("\n  t{}&lt;x\n", ctr), format!("\n  t{}<x\n", ctr), format!("t{}<x", ctr)),
+                _ => (format!("t{}", ctr), format!("t{}", ctr), format!("t{}", ctr)),
             };
             out.push_str(&raw);
             toks.push((val, Some(path.clone())));
+            VN::Text(content)
         }
         Node::CData => {
             *ctr += 1;
             out.push_str(&format!("<![CDATA[c{}<&]]>", ctr));
             toks.push((format!("c{}<&", ctr), Some(path.clone())));
+            VN::CData(format!("c{}<&", ctr))
         }
-        Node::Misc => out.push_str(if rng.chance(1, 2) { "<!-- c -->" } else { "<?pi d?>" }),
+        Node::Misc => {
+            out.push_str(if rng.chance(1, 2) { "<!-- c -->" } else { "<?pi d?>" });
+            VN::Misc
+        }
         Node::Elem { name, empty, attrs, kids } => {
             out.push('<');
             out.push_str(name);
+            let mut vattrs = vec![];
             for a in attrs {
                 *ctr += 1;
                 let (raw, val) = if a.starts_with("xmlns") {
@@ -46,8 +76,10 @@ fn write_tok(n: &Node, rng: &mut Rng, ctr: &mut usize, toks: &mut Vec<Tok>, out:
                 };
                 let q = if rng.chance(1, 2) { '"' } else { '\'' };
                 write!(out, " {}={}{}{}", a, q, raw, q).unwrap();
-                toks.push((val, None));
+                toks.push((val.clone(), None));
+                vattrs.push((a.clone(), val));
             }
+            let mut vkids = vec![];
             if *empty {
                 out.push_str("/>");
             } else {
@@ -57,33 +89,161 @@ fn write_tok(n: &Node, rng: &mut Rng, ctr: &mut usize, toks: &mut Vec<Tok>, out:
                 for k in kids {
                     if pretty && has_elem {
                         out.push_str("\n  ");
+                        vkids.push(VN::Text("\n  ".to_string()));
                     }
-                    write_tok(k, rng, ctr, toks, out, pretty, path);
+                    vkids.push(write_tok(k, rng, ctr, toks, out, pretty, path));
                 }
                 path.pop();
                 if pretty && has_elem {
                     out.push('\n');
+                    vkids.push(VN::Text("\n".to_string()));
                 }
                 write!(out, "</{}>", name).unwrap();
             }
+            VN::Elem { name: name.clone(), empty: *empty, attrs: vattrs, kids: vkids }
         }
     }
 }
-fn write_doc_tok(top: &[Node], rng: &mut Rng) -> (String, Vec<Tok>) {
+fn write_doc_tok(top: &[Node], rng: &mut Rng) -> (String, Vec<Tok>, Vec<VN>) {
     let mut out = String::new();
     let mut toks = vec![];
     let mut ctr = 0;
+    let mut vtop = vec![];
     let pretty = rng.chance(1, 3);
     if rng.chance(1, 3) {
         out.push_str("<?xml version=\"1.0\" encoding=\"UTF-8\"?>\n");
+        vtop.push(VN::Misc);
     }
     for n in top {
         match n {
-            Node::Text => out.push('\n'),
-            _ => write_tok(n, rng, &mut ctr, &mut toks, &mut out, pretty, &mut vec![]),
+            Node::Text => {
+                out.push('\n');
+                vtop.push(VN::Text("\n".to_string()));
+            }
+            _ => vtop.push(write_tok(n, rng, &mut ctr, &mut toks, &mut out, pretty, &mut vec![])),
         }
     }
-    (out, toks)
+    (out, toks, vtop)
+}
+
+/// a damaged copy of a source document, to exercise the reject side of the deserializer model:
+/// an unknown attribute / child, a removed attribute / child, a doubled child
+fn mutate_doc(top: &[Node], rng: &mut Rng) -> Option<(Vec<Node>, &'static str)> {
+    fn elems<'a>(n: &'a mut Node, acc: &mut Vec<*mut Node>) {
+        acc.push(n as *mut Node);
+        if let Node::Elem { kids, .. } = n {
+            for k in kids.iter_mut() {
+                if matches!(k, Node::Elem { .. }) {
+                    elems(k, acc);
+                }
+            }
+        }
+    }
+    let mut d: Vec<Node> = top.to_vec();
+    let mut acc: Vec<*mut Node> = vec![];
+    for n in d.iter_mut() {
+        if matches!(n, Node::Elem { .. }) {
+            elems(n, &mut acc);
+        }
+    }
+    if acc.is_empty() {
+        return None;
+    }
+    let target = acc[rng.below(acc.len())];
+    // SAFETY: the pointers address distinct nodes of `d`, which is not moved while they are in use
+    let node: &mut Node = unsafe { &mut *target };
+    let kind = rng.below(5);
+    if let Node::Elem { attrs, kids, empty, .. } = node {
+        match kind {
+            0 => {
+                attrs.push("zz9".to_string());
+                return Some((d, "unknown-attribute"));
+            }
+            1 => {
+                if attrs.is_empty() {
+                    return None;
+                }
+                let i = rng.below(attrs.len());
+                attrs.remove(i);
+                return Some((d, "attribute-removed"));
+            }
+            2 => {
+                let idx: Vec<usize> = kids.iter().enumerate().filter(|(_, k)| matches!(k, Node::Elem { .. })).map(|(i, _)| i).collect();
+                if idx.is_empty() {
+                    return None;
+                }
+                let i = idx[rng.below(idx.len())];
+                kids.remove(i);
+                return Some((d, "child-removed"));
+            }
+            3 => {
+                let idx: Vec<usize> = kids.iter().enumerate().filter(|(_, k)| matches!(k, Node::Elem { .. })).map(|(i, _)| i).collect();
+                if idx.is_empty() {
+                    return None;
+                }
+                let i = idx[rng.below(idx.len())];
+                let c = kids[i].clone();
+                kids.insert(i, c);
+                return Some((d, "child-doubled"));
+            }
+            _ => {
+                if kids.iter().any(|k| matches!(k, Node::Text | Node::CData)) {
+                    return None;
+                }
+                *empty = false;
+                kids.push(Node::Elem { name: "zz8".to_string(), empty: true, attrs: vec![], kids: vec![] });
+                return Some((d, "unknown-child"));
+            }
+        }
+    }
+    None
+}
+
+/// the string literals of a `{:?}` rendering, in order, unescaped
+fn debug_strings(s: &str) -> Vec<String> {
+    let mut out = vec![];
+    let cs: Vec<char> = s.chars().collect();
+    let mut i = 0;
+    while i < cs.len() {
+        if cs[i] == '"' {
+            i += 1;
+            let mut cur = String::new();
+            while i < cs.len() && cs[i] != '"' {
+                if cs[i] == '\\' && i + 1 < cs.len() {
+                    i += 1;
+                    match cs[i] {
+                        'n' => cur.push('\n'),
+                        't' => cur.push('\t'),
+                        'r' => cur.push('\r'),
+                        '0' => cur.push('\0'),
+                        'u' => {
+                            // \u{XXXX}
+                            let mut j = i + 1;
+                            let mut hex = String::new();
+                            if j < cs.len() && cs[j] == '{' {
+                                j += 1;
+                                while j < cs.len() && cs[j] != '}' {
+                                    hex.push(cs[j]);
+                                    j += 1;
+                                }
+                                if let Some(c) = u32::from_str_radix(&hex, 16).ok().and_then(char::from_u32) {
+                                    cur.push(c);
+                                }
+                                i = j;
+                            }
+                        }
+                        c => cur.push(c),
+                    }
+                } else {
+                    cur.push(cs[i]);
+                }
+                i += 1;
+            }
+            out.push(cur);
+        }
+        i += 1;
+    }
+    out
 }
 /// pretty printing adds whitespace text nodes: mirror them in the DOM
 fn reparse_dom_note() -> &'static str {
@@ -135,8 +295,17 @@ pub fn run(ctx: &mut Ctx, c13: bool) {
     let pls = pools(c13);
     let base_opts = if c13 { Opts::serde_xml_rs() } else { Opts::quick_xml() };
 
+    struct Doc {
+        text: String,
+        toks: Vec<Tok>,
+        vtop: Vec<VN>,
+        /// one of the documents the structure was inferred from (false: a damaged copy, used
+        /// only to validate the deserializer model)
+        source: bool,
+        kind: &'static str,
+    }
     struct Prog {
-        docs: Vec<(String, Vec<Tok>)>,
+        docs: Vec<Doc>,
         code: String,
         root: String,
         tree: Option<Tree>,
@@ -177,8 +346,23 @@ pub fn run(ctx: &mut Ctx, c13: bool) {
                 d
             })
             .collect();
-        let docs: Vec<(String, Vec<Tok>)> = doms.iter().map(|d| write_doc_tok(d, &mut rng)).collect();
-        let bytes: Vec<Vec<u8>> = docs.iter().map(|(s, _)| s.clone().into_bytes()).collect();
+        let mut docs: Vec<Doc> = doms
+            .iter()
+            .map(|d| {
+                let (text, toks, vtop) = write_doc_tok(d, &mut rng);
+                Doc { text, toks, vtop, source: true, kind: "source" }
+            })
+            .collect();
+        let bytes: Vec<Vec<u8>> = docs.iter().map(|d| d.text.clone().into_bytes()).collect();
+        // damaged copies (never given to the library): reject side of the deserializer model
+        for d in doms.iter() {
+            if rng.chance(2, 3) {
+                if let Some((m, kind)) = mutate_doc(d, &mut rng) {
+                    let (text, toks, vtop) = write_doc_tok(&m, &mut rng);
+                    docs.push(Doc { text, toks, vtop, source: false, kind });
+                }
+            }
+        }
         let opts = base_opts.clone().sorted(rng.chance(1, 4));
         let b = build_case(None, &bytes, &RCfg::default(), &[opts.clone()], &mut sh.intern, vec![("kind", json::s("program")), ("program", J::N(i as i64))]);
         hist.add(&format!("docs={}", k));
@@ -224,10 +408,22 @@ pub fn run(ctx: &mut Ctx, c13: bool) {
         // (C13 does not claim deny_unknown_fields: Debug only)
         let denied = p.code.replace("#[derive(Serialize, Deserialize)]\n", if c13 { "#[derive(Serialize, Deserialize, Debug)]\n" } else { "#[derive(Serialize, Deserialize, Debug)]\n#[serde(deny_unknown_fields)]\n" });
         std::fs::write(crate_dir.join("src").join(format!("d{}.rs", i)), format!("use serde_derive::{{Deserialize, Serialize}};\n{}", denied)).unwrap();
-        writeln!(main, "mod p{}; mod d{};", i, i).unwrap();
-        for (j, (doc, _)) in p.docs.iter().enumerate() {
+        // for the quick-xml preset a third copy: Debug without deny_unknown_fields (the value the
+        // unchanged program computes, made printable)
+        if !c13 {
+            let dbg = p.code.replace("#[derive(Serialize, Deserialize)]\n", "#[derive(Serialize, Deserialize, Debug)]\n");
+            std::fs::write(crate_dir.join("src").join(format!("e{}.rs", i)), format!("use serde_derive::{{Deserialize, Serialize}};\n{}", dbg)).unwrap();
+            writeln!(main, "mod p{}; mod d{}; mod e{};", i, i, i).unwrap();
+        } else {
+            writeln!(main, "mod p{}; mod d{};", i, i).unwrap();
+        }
+        for (j, dd) in p.docs.iter().enumerate() {
+            let doc = &dd.text;
             writeln!(body, "    match {}::<p{}::{}>({:?}) {{ Ok(_) => println!(\"P {} {} ok\"), Err(e) => println!(\"P {} {} err {{}}\", e.to_string().replace('\\n', \" \")) }}", de, i, p.root, doc, i, j, i, j).unwrap();
-            writeln!(body, "    match {}::<d{}::{}>({:?}) {{ Ok(v) => println!(\"D {} {} ok {{}}\", format!(\"{{:?}}\", v).replace('\\n', \" \")), Err(e) => println!(\"D {} {} err {{}}\", e.to_string().replace('\\n', \" \")) }}", de, i, p.root, doc, i, j, i, j).unwrap();
+            writeln!(body, "    match {}::<d{}::{}>({:?}) {{ Ok(v) => println!(\"D {} {} ok {{}}\", format!(\"{{:?}}\", v).replace('\\n', \"\\\\n\")), Err(e) => println!(\"D {} {} err {{}}\", e.to_string().replace('\\n', \" \")) }}", de, i, p.root, doc, i, j, i, j).unwrap();
+            if !c13 {
+                writeln!(body, "    match {}::<e{}::{}>({:?}) {{ Ok(v) => println!(\"E {} {} ok {{}}\", format!(\"{{:?}}\", v).replace('\\n', \"\\\\n\")), Err(e) => println!(\"E {} {} err {{}}\", e.to_string().replace('\\n', \" \")) }}", de, i, p.root, doc, i, j, i, j).unwrap();
+            }
         }
     }
     writeln!(main, "fn main() {{\n{}    println!(\"done\");\n}}", body).unwrap();
@@ -256,14 +452,14 @@ pub fn run(ctx: &mut Ctx, c13: bool) {
             }
             let first_err: String = err.lines().filter(|l| l.starts_with("error")).take(3).collect::<Vec<_>>().join(" | ");
             if seen.is_empty() {
-                fails.push(json::obj(vec![("check", json::s("batch-build")), ("what", json::s(format!("scratch crate does not build: {}", &err[..err.len().min(1500)])))]));
+                fails.push(json::obj(vec![("check", json::s("batch-build")), ("what", json::s(format!("scratch crate does not build: {}", err.chars().take(1500).collect::<String>())))]));
             }
             for (kind, k) in seen.iter().take(5) {
                 if let Some(p) = progs.get(*k) {
                     fails.push(json::obj(vec![
                         ("check", json::s("does-not-compile")),
                         ("what", json::s(format!("rustc rejects the rendered source ({}): {}", if kind == "p" { "unchanged" } else { "with deny_unknown_fields + Debug" }, first_err))),
-                        ("documents", J::A(p.docs.iter().map(|(d, _)| json::s(d)).collect())),
+                        ("documents", J::A(p.docs.iter().filter(|d| d.source).map(|d| json::s(&d.text)).collect())),
                         ("rendered", json::s(&p.code)),
                     ]));
                 }
@@ -273,6 +469,8 @@ pub fn run(ctx: &mut Ctx, c13: bool) {
     }
     let mut n_ok = 0;
     let mut n_runs = 0;
+    // (program, document, variant) -> (accepted, string leaves of the Debug rendering)
+    let mut real: std::collections::BTreeMap<(usize, usize, char), (bool, Option<Vec<String>>)> = std::collections::BTreeMap::new();
     if compiled {
         let exe = format!("{}/debug/xsgbatch", target);
         let o = Command::new(&exe).output();
@@ -286,13 +484,19 @@ pub fn run(ctx: &mut Ctx, c13: bool) {
             let rest = it.next().unwrap_or("");
             let (Ok(i), Ok(j)) = (i.parse::<usize>(), j.parse::<usize>()) else { continue };
             let p = &progs[i];
-            let (doc, toks) = &p.docs[j];
+            let dd = &p.docs[j];
+            let (doc, toks) = (&dd.text, &dd.toks);
+            let kc = kind.chars().next().unwrap_or('?');
+            real.insert((i, j, kc), (res == "ok", if res == "ok" && kc != 'P' { Some(debug_strings(rest)) } else { None }));
+            if !dd.source || kc == 'E' {
+                continue;
+            }
             n_runs += 1;
             let mut fail = |check: &str, what: String, sig: Option<&str>| {
                 let mut kv = vec![
                     ("check", json::s(check)),
                     ("what", json::s(what)),
-                    ("documents", J::A(p.docs.iter().map(|(d, _)| json::s(d)).collect())),
+                    ("documents", J::A(p.docs.iter().filter(|d| d.source).map(|d| json::s(&d.text)).collect())),
                     ("failing_document", json::s(doc)),
                     ("rendered", json::s(&p.code)),
                 ];
@@ -323,10 +527,56 @@ pub fn run(ctx: &mut Ctx, c13: bool) {
                             _ => false,
                         });
                     let names: Vec<&String> = missing.iter().map(|(t, _)| t).collect();
-                    fail("value-dropped", format!("deserialized value does not hold {:?}: {}", names, &rest[..rest.len().min(600)]), if k1 { Some("K1-serde-xml-rs-struct-text-dropped") } else { None });
+                    fail("value-dropped", format!("deserialized value does not hold {:?}: {}", names, rest.chars().take(600).collect::<String>()), if k1 { Some("K1-serde-xml-rs-struct-text-dropped") } else { None });
                 }
             }
         }
+    }
+    // ---- the deserializer model (coq/Model/Deser.v) against the real deserializer: verdict and
+    // string leaves, on the source documents and on the damaged copies
+    {
+        let evals = vec![Eval { label: "deser", func: "ev_deser".into(), role: "corr" }];
+        let imports = "From XSG.Model Require Import Strings Necessity Element Parser Dom Render Deser.\nFrom XSG.Corr Require Import Common Oracles DeserCorr.\nFrom Coq Require Import String.";
+        let mut sh2 = Shards::new(&ctx.out, "deser", imports, "desercase", evals, "show_deser", 60);
+        let mut n_cases = 0;
+        let mut n_reject = 0;
+        for (i, p) in progs.iter().enumerate() {
+            let ps = crate::outp::parse_output(&p.code).ok();
+            for (j, dd) in p.docs.iter().enumerate() {
+                let variants: Vec<(char, bool)> = if c13 { vec![('D', false)] } else { vec![('D', true), ('E', false)] };
+                for (kc, deny) in variants {
+                    let Some((ok, leaves)) = real.get(&(i, j, kc)) else { continue };
+                    let ps_t = match &ps {
+                        Some(ps) => format!("(Some {})", crate::outp::coq_pstructs(ps, &mut sh2.intern)),
+                        None => "None".to_string(),
+                    };
+                    let doc_t = format!("[{}]", dd.vtop.iter().map(|v| coq_vn(v, &mut sh2.intern)).collect::<Vec<_>>().join("; "));
+                    let leaves_t = match leaves {
+                        Some(l) => format!("(Some [{}])", l.iter().map(|x| crate::emit::coq_str(x)).collect::<Vec<_>>().join("; ")),
+                        None => "None".to_string(),
+                    };
+                    let term = format!("Build_desercase {} {} {} {} {} {}", crate::emit::coq_bool(c13), ps_t, doc_t, crate::emit::coq_bool(deny), crate::emit::coq_bool(*ok), leaves_t);
+                    let descr = json::obj(vec![
+                        ("kind", json::s("deserializer-model")),
+                        ("document_kind", json::s(dd.kind)),
+                        ("document", json::s(&dd.text)),
+                        ("rendered", json::s(&p.code)),
+                        ("deny_unknown_fields", J::B(deny)),
+                        ("real_verdict", json::s(if *ok { "ok" } else { "err" })),
+                        ("real_leaves", match leaves { Some(l) => J::A(l.iter().map(json::s).collect()), None => J::Null }),
+                    ]);
+                    sh2.push(term, descr);
+                    n_cases += 1;
+                    if !*ok {
+                        n_reject += 1;
+                    }
+                    hist.add(&format!("deser:{}:{}", dd.kind, if *ok { "ok" } else { "err" }));
+                }
+            }
+        }
+        ctx.shards.extend(sh2.finish());
+        ctx.meta.push(("x_deserializer_model_cases", J::N(n_cases)));
+        ctx.meta.push(("x_deserializer_model_rejects", J::N(n_reject)));
     }
     hist.addn("programs", progs.len() as i64);
     hist.addn("deserializations-run", n_runs);
